@@ -26,6 +26,11 @@ Proof. vm_compute. reflexivity. Qed.
 Lemma gen_zero_guards : gen_index_zero_guard_exact = true /\ gen_scan_zero_guard_exact = true.
 Proof. vm_compute. split; reflexivity. Qed.
 
+(* the rayon twins of the exact scan compute the same thing as the sequential scans (same filter, same score
+   expression on the same query): the exact-path theorem then covers both *)
+Lemma gen_twins : gen_scan_twins_agree = true.
+Proof. vm_compute. reflexivity. Qed.
+
 Lemma gen_keep_spec : forall b, gen_keep b = negb (f_iszero b).
 Proof. intros b. unfold gen_keep. repeat match goal with |- context [if ?c then _ else _] => destruct c end; reflexivity. Qed.
 
